@@ -4,8 +4,12 @@
 From TV Require Import Base.I32 Model.Structure Gen.StructTable.
 Open Scope nat_scope.
 
+(* KStruct: everything as terms (replays, diagnosis).  KHash: the flat stream as a term and the
+   implementation's five results (after each pass, and the default decompilation) as hashes of their
+   token encoding -- elaborating the six programs of a case as Coq terms dominates the run time otherwise. *)
 Inductive c07case :=
-| KStruct (f p1 p2 p3 p4 s : list stmt).
+| KStruct (f p1 p2 p3 p4 s : list stmt)
+| KHash (f : list stmt) (hs : list N).
 
 Definition opt_eqb {A} (eqb : A -> A -> bool) (a b : option A) : bool :=
   match a, b with
@@ -69,12 +73,64 @@ Fixpoint stmt_eqb (a b : stmt) : bool :=
 Definition prog_eqb : list stmt -> list stmt -> bool := list_eqb stmt_eqb.
 
 Definition run_gen (q : spass) : list stmt -> list stmt := run_pass gen_negcmp gen_guards q.
+(* the faithful setting: a negated count jump does not compile *)
+Definition CNTNEG : bool := false.
 
 (* which of the six comparisons fail: 1 = loop pass, 2 = if/else pass (on the implementation's P1), 3 = break
    pass (on P2), 4 = unused labels (on P3), 5 = the composition in the generated pass order vs the default
    decompilation, 6 = the input is not a flat bookended stream *)
+(* token encoding; the harness (c07.rs: e_stmt) produces the same tokens from the implementation's AST *)
+Definition binop_index (op : binop) : N :=
+  match op with
+  | Add => 0 | Sub => 1 | Mul => 2 | Div => 3 | Rem => 4 | Eq => 5 | Ne => 6 | Lt => 7 | Le => 8 | Gt => 9 | Ge => 10
+  | BitOr => 11 | BitXor => 12 | BitAnd => 13 | LogicOr => 14 | LogicAnd => 15 | ShiftLeft => 16
+  | ShiftRightSigned => 17 | ShiftRightUnsigned => 18
+  end%N.
+Definition e_nat (n : nat) : N := N.of_nat n.
+Definition e_diff (d : diff) : N := match d with None => 0%N | Some k => (N.of_nat k + 1)%N end.
+Definition e_cond (c : cond) : list N :=
+  match c with
+  | CBin op a b => [0%N; binop_index op; e_nat a; e_nat b]
+  | CCnt op a b => [1%N; binop_index op; e_nat a; e_nat b]
+  | COther n => [2%N; e_nat n]
+  end.
+Definition e_jk (k : jk) : list N := match k with JU => [0%N] | JC c => 1%N :: e_cond c end.
+Definition e_z (t : Z) : list N := [if (t <? 0)%Z then 1%N else 0%N; Z.abs_N t].
+Fixpoint e_stmt (s : stmt) : list N :=
+  match s with
+  | SIns d i r => 0%N :: e_diff d :: e_nat i :: e_nat (length r) :: map e_nat r
+  | SIntr d n => [1%N; e_diff d; e_nat n]
+  | SNo => [2%N]
+  | SLabel l => [3%N; e_nat l]
+  | STime a t => 4%N :: (if a then 1%N else 0%N) :: e_z t
+  | SJump d k l t => 5%N :: e_diff d :: e_jk k ++ [e_nat l] ++ match t with None => [0%N] | Some t => 1%N :: e_z t end
+  | SBreak d k => 6%N :: e_diff d :: e_jk k
+  | SLoop k b => 7%N :: e_jk k ++ e_nat (length b) :: flat_map e_stmt b
+  | SChain bs els =>
+      8%N :: e_nat (length bs)
+      :: flat_map (fun cb => e_cond (fst cb) ++ e_nat (length (snd cb)) :: flat_map e_stmt (snd cb)) bs
+      ++ match els with None => [0%N] | Some b => 1%N :: e_nat (length b) :: flat_map e_stmt b end
+  end.
+Definition e_prog (p : list stmt) : list N := e_nat (length p) :: flat_map e_stmt p.
+Definition HASH_P : N := 2305843009213693951%N.
+Definition hash_prog (p : list stmt) : N :=
+  fold_left (fun h t => ((h * 1000003 + t + 1) mod HASH_P)%N) (e_prog p) 7%N.
+
 Definition failing (c : c07case) : list nat :=
   match c with
+  | KHash f hs =>
+      let m1 := run_gen PLoop f in
+      let m2 := run_gen PIfElse m1 in
+      let m3 := run_gen PBreak m2 in
+      let m4 := run_gen PUnused m3 in
+      let ms := structure_with gen_negcmp gen_guards gen_pass_order f in
+      (fix go (k : nat) (ms : list (list stmt)) (hs : list N) : list nat :=
+         match ms, hs with
+         | [], [] => []
+         | m :: ms', h :: hs' => (if N.eqb (hash_prog m) h then [] else [k]) ++ go (S k) ms' hs'
+         | _, _ => [7]
+         end) 1 [m1; m2; m3; m4; ms] hs
+      ++ (if is_flat f then [] else [6])
   | KStruct f p1 p2 p3 p4 s =>
       (if prog_eqb (run_gen PLoop f) p1 then [] else [1])
       ++ (if prog_eqb (run_gen PIfElse p1) p2 then [] else [2])
@@ -95,9 +151,11 @@ Fixpoint mismatches (n : N) (l : list c07case) : list N :=
 (* the model's own consequence of the theorem, evaluated on the implementation's input: the canonical
    stream of the reconstructed program equals that of the flat one (used by the check as a second,
    model-level oracle when a proof breaks) *)
-Definition canon_agrees (c : c07case) : bool :=
-  match c with
-  | KStruct f _ _ _ _ s =>
+Definition canon_agrees_with (cn : bool) (c : c07case) : bool :=
+  let '(f, s) := match c with
+                 | KStruct f _ _ _ _ s => (f, s)
+                 | KHash f _ => (f, structure_with gen_negcmp gen_guards gen_pass_order f)   (* = the implementation's, by the hash *)
+                 end in
       list_eqb (fun a b =>
                   match a, b with
                   | (t1, d1, b1), (t2, d2, b2) =>
@@ -117,11 +175,22 @@ Definition canon_agrees (c : c07case) : bool :=
                       | _, _ => false
                       end
                   end)
-               (canon_of gen_negcmp s) (canon_of gen_negcmp f)
-  end.
+               (canon_of gen_negcmp cn s) (canon_of gen_negcmp cn f).
+Definition canon_agrees : c07case -> bool := canon_agrees_with CNTNEG.
 
 Fixpoint canon_mismatches (n : N) (l : list c07case) : list N :=
   match l with
   | [] => []
   | c :: t => if canon_agrees c then canon_mismatches (n + 1) t else n :: canon_mismatches (n + 1) t
   end.
+
+(* both evaluations in one pass over the cases: model/implementation disagreements as i, canonical-stream
+   disagreements as 1000000 + i *)
+(* canonical streams that differ even for a compiler that could lower a negated count jump *)
+Fixpoint canon_mismatches_ideal (n : N) (l : list c07case) : list N :=
+  match l with
+  | [] => []
+  | c :: t => if canon_agrees_with true c then canon_mismatches_ideal (n + 1) t else n :: canon_mismatches_ideal (n + 1) t
+  end.
+Definition both_mismatches (n : N) (l : list c07case) : list N :=
+  mismatches n l ++ map (N.add 1000000) (canon_mismatches n l) ++ map (N.add 2000000) (canon_mismatches_ideal n l).
